@@ -91,8 +91,9 @@ func TestExhaustiveCycle(t *testing.T) {
 		}
 		s := start.AddDate(0, 0, from)
 		c := Case{Y: s.Year(), M: int(s.Month()), D: s.Day(), Cells: n, Steps: 3}
-		r := check(c)
 		js, _ := json.Marshal(c)
+		pbt.WriteAhead(t.Name(), js)
+		r := check(c)
 		if r.Fail != "" {
 			// narrow to the single failing start date for the replay file
 			for i := 0; i < n; i++ {
